@@ -922,6 +922,7 @@ Proof.
                tryif constr_eq d r then fail else (tryif is_var d then destruct d else destruct d eqn:?)
              end; cbn);
      try exact I;
+     repeat (match goal with |- context [existsb ?f ?l] => destruct (existsb f l) eqn:? end; cbn);
      (split; [solve [leaf0]|]; cbn;
       first [ left; split; reflexivity
             | right; left; repeat split; first [reflexivity|assumption]
